@@ -295,6 +295,10 @@ pub enum Op {
     /// r[ns].name (an exported namespace variable is a property of the namespace object)
     DeclareNamespaceExport { ns: Register, name: ConstantIndex },
 
+    /// Note that `name` is exported by a block of the namespace in r[ns] (a function, class,
+    /// enum or nested namespace: a local of this block, an `N.name` reference in later blocks)
+    RecordNamespaceExport { ns: Register, name: ConstantIndex },
+
     /// On entering a namespace body: bind every own enumerable string-keyed property of
     /// r[ns] (the exports of earlier blocks of a merged namespace) as live bindings
     BindNamespaceExports { ns: Register },
